@@ -61,11 +61,23 @@ type Runner struct {
 	draws    []float64
 	rngSeed  uint64
 	retained map[int][]any // slices handed to / received from the library by each command
+	// component objects are created once per scenario and configuration and reused by later commands,
+	// the way a model object is used across the steps of a training loop (the model is stateless per object)
+	layerCache map[string]fwdLayer
+	lossCache  map[int]lossFn
+}
+
+type fwdLayer interface {
+	Forward(xs ...tensor.Tensor) (tensor.Tensor, error)
+}
+type lossFn interface {
+	Compute(yp tensor.Tensor, yt tensor.Tensor) (tensor.Tensor, error)
 }
 
 func NewRunner(rngSeed uint64) *Runner {
 	xrand.Seed(rngSeed)
-	return &Runner{vals: map[int][]float64{}, gvals: map[[2]int][]float64{}, rngSeed: rngSeed, retained: map[int][]any{}}
+	return &Runner{vals: map[int][]float64{}, gvals: map[[2]int][]float64{}, rngSeed: rngSeed, retained: map[int][]any{},
+		layerCache: map[string]fwdLayer{}, lossCache: map[int]lossFn{}}
 }
 
 // replays the raw draws the library consumed, in order
@@ -684,40 +696,51 @@ func (r *Runner) exec(idx int, c Cmd) (Obs, obj) {
 		return r.tensorResult(y, nil)
 	case OpAct:
 		xs := r.targs(c.Targs)
-		switch c.K {
-		case 0:
-			return r.tensorResult(activations.NewRelu().Forward(xs...))
-		case 1:
-			return r.tensorResult(activations.NewSigmoid().Forward(xs...))
-		case 2:
-			return r.tensorResult(activations.NewTanh().Forward(xs...))
-		case 3:
-			var conf *activations.LeakyReluConfig
-			if c.HasA {
-				conf = &activations.LeakyReluConfig{M: c.A.F()}
+		key := fmt.Sprintf("%d|%v|%s|%v|%d", c.K, c.HasA, c.A.String(), c.HasZ, c.Z)
+		a, ok := r.layerCache[key]
+		if !ok {
+			switch c.K {
+			case 0:
+				a = activations.NewRelu()
+			case 1:
+				a = activations.NewSigmoid()
+			case 2:
+				a = activations.NewTanh()
+			case 3:
+				var conf *activations.LeakyReluConfig
+				if c.HasA {
+					conf = &activations.LeakyReluConfig{M: c.A.F()}
+				}
+				a = activations.NewLeakyRelu(conf)
+			default:
+				var conf *activations.SoftmaxConfig
+				if c.HasZ {
+					conf = &activations.SoftmaxConfig{Dim: c.Z}
+				}
+				sm, err := activations.NewSoftmax(conf)
+				if err != nil {
+					return errObs(err), obj{}
+				}
+				a = sm
 			}
-			return r.tensorResult(activations.NewLeakyRelu(conf).Forward(xs...))
-		default:
-			var conf *activations.SoftmaxConfig
-			if c.HasZ {
-				conf = &activations.SoftmaxConfig{Dim: c.Z}
-			}
-			a, err := activations.NewSoftmax(conf)
-			if err != nil {
-				return errObs(err), obj{}
-			}
-			return r.tensorResult(a.Forward(xs...))
+			r.layerCache[key] = a
 		}
+		return r.tensorResult(a.Forward(xs...))
 	case OpLoss:
 		yp, yt := r.targ(c.Targs[0]), r.targ(c.Targs[1])
-		switch c.K {
-		case 0:
-			return r.tensorResult(losses.NewMSE().Compute(yp, yt))
-		case 1:
-			return r.tensorResult(losses.NewBCE().Compute(yp, yt))
-		default:
-			return r.tensorResult(losses.NewCE().Compute(yp, yt))
+		l, ok := r.lossCache[c.K]
+		if !ok {
+			switch c.K {
+			case 0:
+				l = losses.NewMSE()
+			case 1:
+				l = losses.NewBCE()
+			default:
+				l = losses.NewCE()
+			}
+			r.lossCache[c.K] = l
 		}
+		return r.tensorResult(l.Compute(yp, yt))
 	case OpSGDNew:
 		var conf *optimizers.SGDConfig
 		if c.HasA {
